@@ -34,20 +34,32 @@ fn placeholder_schema(rng: &mut Rng) -> Schema {
 
 /// a panic of the code under test is an answer that is neither acceptance nor the hierarchy error ("other")
 fn reader_verdict(chain: &[u64], unk: &[bool], tag: u64, is_master: bool, ty: TagDataType) -> (String, Value) {
-    std::panic::catch_unwind(|| reader_verdict_raw(chain, unk, tag, is_master, ty)).unwrap_or_else(|_| ("other".into(), json!([])))
+    reader_verdict_ex(chain, unk, 0, tag, is_master, ty)
+}
+/// ex: the innermost `ex` masters of the chain are empty and end (by their own known size, or that of the master around
+/// them) right before the element
+fn reader_verdict_ex(chain: &[u64], unk: &[bool], ex: usize, tag: u64, is_master: bool, ty: TagDataType) -> (String, Value) {
+    std::panic::catch_unwind(|| reader_verdict_raw(chain, unk, ex, tag, is_master, ty)).unwrap_or_else(|_| ("other".into(), json!([])))
 }
 fn guarded<T>(f: impl FnOnce() -> Result<(), T>) -> Result<Result<(), T>, ()> {
     std::panic::catch_unwind(std::panic::AssertUnwindSafe(f)).map_err(|_| ())
 }
-fn reader_verdict_raw(chain: &[u64], unk: &[bool], tag: u64, is_master: bool, ty: TagDataType) -> (String, Value) {
+fn reader_verdict_raw(chain: &[u64], unk: &[bool], ex: usize, tag: u64, is_master: bool, ty: TagDataType) -> (String, Value) {
     // bytes: chain masters (known sizes cover everything that follows), then the element
     let mut elem = gen::id_bytes(tag);
     if is_master { elem.push(0x80); } else {
         let payload: Vec<u8> = match ty { TagDataType::Float => vec![0; 4], TagDataType::Utf8 => b"a".to_vec(), _ => vec![1] };
         elem.push(0x80 | payload.len() as u8); elem.extend(payload);
     }
-    let mut bytes = elem;
-    for k in (0..chain.len()).rev() {
+    // the ended group (innermost `ex` masters, empty), then the element, inside the rest of the chain
+    let mut bytes: Vec<u8> = Vec::new();
+    for k in (chain.len() - ex..chain.len()).rev() {
+        let mut h = gen::id_bytes(chain[k]);
+        if unk[k] { h.push(0xff); } else { h.extend(gen::size_field(bytes.len() as u64, 0)); }
+        h.extend(bytes); bytes = h;
+    }
+    bytes.extend(elem);
+    for k in (0..chain.len() - ex).rev() {
         let mut h = gen::id_bytes(chain[k]);
         if unk[k] { h.push(0xff); } else { h.extend(gen::size_field(bytes.len() as u64, 0)); }
         h.extend(bytes); bytes = h;
@@ -179,6 +191,27 @@ pub fn run(out: &mut Out, seed: u64, thorough: bool) {
                     let (rv, rid) = if rooted { reader_verdict(chain, &unk, e.id, is_master, e.ty) } else { ("na".to_string(), json!([])) };
                     out.ev(json!({"ev":"path","chain":chain.iter().map(|c| idw(*c)).collect::<Vec<_>>(),"unk":unk,"tag":idw(e.id),"tag_unknown":false,
                                   "w":wv,"wid":wid,"r":rv,"rid":rid}));
+                    // the same chain with its innermost masters already ended when the tag comes: by a known size of their own (the
+                    // outermost of the ended group must have one), unknown-size masters inside it ending with it
+                    for ex in 1..chain.len() {
+                        if unk[chain.len() - ex] || !rooted { continue; }
+                        let mut dest2: Vec<u8> = Vec::new();
+                        let mut w2 = TagWriter::new(&mut dest2);
+                        let mut ok = true;
+                        for (k, id) in chain.iter().enumerate() {
+                            let st = DynTag { id: *id, v: DynVal::M(Master::Start) };
+                            let r = guarded(|| if unk[k] { w2.write_advanced(&st, WriteOptions::is_unknown_sized_element()) } else { w2.write(&st) });
+                            if !matches!(r, Ok(Ok(()))) { ok = false; break; }
+                        }
+                        for id in chain.iter().rev().take(ex) { if !matches!(guarded(|| w2.write(&DynTag { id: *id, v: DynVal::M(Master::End) })), Ok(Ok(()))) { ok = false; } }
+                        if !ok { continue; }
+                        let g = guarded(|| w2.write(&tag));
+                        let (wv2, wid2) = match &g { Err(_) => ("other".to_string(), json!([])), Ok(Ok(())) => ("ok".to_string(), json!([])),
+                            Ok(Err(TagWriterError::UnexpectedTag { tag_id, .. })) => ("unexpected_tag".to_string(), idw(*tag_id)), Ok(Err(_)) => ("other".to_string(), json!([])) };
+                        let (rv2, rid2) = reader_verdict_ex(chain, &unk, ex, e.id, is_master, e.ty);
+                        out.ev(json!({"ev":"path","chain":chain.iter().map(|c| idw(*c)).collect::<Vec<_>>(),"unk":unk,"tag":idw(e.id),"tag_unknown":false,"ex":ex as i64,
+                                      "w":wv2,"wid":wid2,"r":rv2,"rid":rid2}));
+                    }
                 }
             }
         }
